@@ -265,6 +265,61 @@ def pkt (tyS valS modeS variantS trailS obs : String) : Verdict :=
       { model, spec }
   | _, _, _ => { model := "bad-arg" }
 
+/-- `pkt.hist`: a history of Marshal (or one-Builder) calls, all packets observed after the last call -/
+def hist (args : List String) (obs : String) : Verdict :=
+  match args with
+  | how :: rest =>
+    let rec pairs : List String → Option (List (String × String))
+      | [] => some []
+      | t :: v :: more => (pairs more).map ((t, v) :: ·)
+      | _ => none
+    match pairs rest with
+    | none => { model := "bad-arg" }
+    | some ps =>
+      -- per call: (model bytes, model scan text, spec bytes/text if the values are in their domain)
+      let one := fun (p : String × String) => match tyOfString p.1, svOfString p.2 with
+        | some t, some sv => match toAbs t sv with
+          | some a =>
+            let v := ofAbs t a
+            some (Call.mk t v, if inDomB t a && t.regular then some (wire t a, showAbs t a) else none)
+          | none => none
+        | _, _ => none
+      match ps.mapM one with
+      | none => { model := "bad-arg" }
+      | some cs =>
+        let calls := cs.map (·.1)
+        let builder := how == "builder"
+        let datas := if builder then builderHist [] calls else marshalHist calls
+        -- the model: scan every packet back with the model decoders of the calls it holds
+        let scanTxt := fun (i : Nat) (data : Bytes) =>
+          let part := if builder then calls.take (i + 1) else (calls.drop i).take 1
+          let rec go : List Call → Stream → Option String
+            | [], _ => some ""
+            | c :: more, s => match (codec c.t).dec (prior 0 c.t c.v) s with
+              | (.ok (d, _), s') => (go more s').map (showAbs c.t (abs c.t d) ++ ·)
+              | _ => none
+          (go part (Stream.ofBytes data)).getD "serr"
+        let idx := List.range datas.length
+        let model := "ok " ++ " ".intercalate ((idx.zip datas).map fun (i, d) => s!"p{i}={3 * i + 1},{hexS d},{scanTxt i d}")
+        -- the oracle: call i alone determines packet i (Marshal), calls 0..i in order (Builder); layouts from Spec.wire
+        let specs := cs.map (·.2)
+        let spec : Option String :=
+          if obs == "panic" then some "panic in a Marshal/Builder history" else
+          if specs.any Option.isNone then none else
+          let ws := specs.filterMap id
+          let want := "ok " ++ " ".intercalate (idx.map fun i =>
+            let part := if builder then ws.take (i + 1) else (ws.drop i).take 1
+            s!"p{i}={3 * i + 1},{hexS (part.map (·.1)).flatten},{String.join (part.map (·.2))}")
+          if obs == want then none else
+            -- name the first packet that is not what its own call produced
+            let got := (obs.drop 3).toString.splitOn " "
+            let exp := (want.drop 3).toString.splitOn " "
+            let bad := (got.zip exp).find? fun (g, e) => g != e
+            some ("a packet of the history is not the composition of its own call's fields: " ++
+              (match bad with | some (g, e) => s!"got {(g.take 120).toString} expected {(e.take 120).toString}" | none => "packet count differs"))
+        { model, spec }
+  | _ => { model := "bad-arg" }
+
 /-- NBTField on a few fixed values: the expected documents are written out by hand from the NBT format
 (network format: the root tag has no name). The NBT codec's own model belongs to C01/C02. -/
 def nbtTable : List (String × String × String) := [
@@ -496,6 +551,7 @@ def handle (op : String) (args : List String) (obs : String) : Option Verdict :=
   | "fld.trunc", [t, v, m, _, k] => some (trunc t v m k obs)
   | "fld.dec", [t, h, m, _] => some (dec t h m obs)
   | "pkt.rt", [t, v, m, va, tr] => some (pkt t v m va tr obs)
+  | "pkt.hist", args => some (hist args obs)
   | "nbt.rt", [n] => some (nbt n obs)
   | "nbt.fld", [t, p, a, w, _, d, tr] => some (Fld.fld t p a w d tr obs)
   | "nbt.omit", [p, a] => some (Fld.omitField p a obs)
